@@ -83,7 +83,7 @@ class QueryJudge:
                 # theorem's statement) is wrong - machinery trouble, not a verdict about the implementation
                 rep.notes.append(f"model!=spec inside hypotheses on {case['id']}: {surface.case_sexp(case)[:400]}")
                 rep.count('MODEL_NE_SPEC_INSIDE_HYPOTHESES')
-        l2 = drv.get('l2') if (case.get('quant') != 'the' and not case.get('forall') and not case.get('pform')) else None
+        l2 = drv.get('l2') if (case.get('quant') != 'the' and not case.get('forall') and not case.get('foralls') and not case.get('pform')) else None
         for cfg_name, cfg in res['impl'].items():
             rep.count('cache_hits_' + cfg_name, cfg['hits'])
             for ev, out in enumerate(cfg['outs']):
